@@ -148,6 +148,7 @@ from ...ast.fpyast import *
 from ...ast.visitor import Visitor
 from ...function import Function
 from ...number import INTEGER, REAL, Context, Float, RealFloat
+from ...number.context.exponential import ExpFormat
 from ...number.format import REAL_FORMAT, Format
 from ...types import (
     BoolType,
@@ -1151,6 +1152,10 @@ def round_is_identity(
     if isinstance(unrounded, SetFormat):
         return _all_representable_in(unrounded.values, ctx_fmt)
     if not isinstance(ctx_fmt, AbstractableFormat):
+        return False
+    if isinstance(ctx_fmt, ExpFormat):
+        # every abstract format holds a zero, which an exponential format
+        # does not represent: rounding one there is never an identity
         return False
     return unrounded <= AbstractFormat.from_format(ctx_fmt)
 
